@@ -12,21 +12,15 @@ type comparison =
 | Lt
 | Gt
 
-val compOpp : comparison -> comparison
-
 val add : nat -> nat -> nat
 
-val nth : nat -> 'a1 list -> 'a1 -> 'a1
+val flat_map : ('a1 -> 'a2 list) -> 'a1 list -> 'a2 list
 
-val rev : 'a1 list -> 'a1 list
+val existsb : ('a1 -> bool) -> 'a1 list -> bool
 
-val map : ('a1 -> 'a2) -> 'a1 list -> 'a2 list
+val firstn : nat -> 'a1 list -> 'a1 list
 
 val skipn : nat -> 'a1 list -> 'a1 list
-
-val seq : nat -> nat -> nat list
-
-val repeat : 'a1 -> nat -> 'a1 list
 
 type positive =
 | XI of positive
@@ -44,6 +38,14 @@ type z =
 
 module Pos :
  sig
+  type mask =
+  | IsNul
+  | IsPos of positive
+  | IsNeg
+ end
+
+module Coq_Pos :
+ sig
   val succ : positive -> positive
 
   val add : positive -> positive -> positive
@@ -52,31 +54,28 @@ module Pos :
 
   val pred_double : positive -> positive
 
-  val pred_N : positive -> n
+  type mask = Pos.mask =
+  | IsNul
+  | IsPos of positive
+  | IsNeg
+
+  val succ_double_mask : mask -> mask
+
+  val double_mask : mask -> mask
+
+  val double_pred_mask : positive -> mask
+
+  val sub_mask : positive -> positive -> mask
+
+  val sub_mask_carry : positive -> positive -> mask
 
   val mul : positive -> positive -> positive
-
-  val iter : ('a1 -> 'a1) -> 'a1 -> positive -> 'a1
-
-  val div2 : positive -> positive
-
-  val div2_up : positive -> positive
 
   val compare_cont : comparison -> positive -> positive -> comparison
 
   val compare : positive -> positive -> comparison
 
   val eqb : positive -> positive -> bool
-
-  val coq_Nsucc_double : n -> n
-
-  val coq_Ndouble : n -> n
-
-  val coq_lor : positive -> positive -> positive
-
-  val coq_land : positive -> positive -> n
-
-  val ldiff : positive -> positive -> n
 
   val iter_op : ('a1 -> 'a1 -> 'a1) -> positive -> 'a1 -> 'a1
 
@@ -87,15 +86,21 @@ module Pos :
 
 module N :
  sig
-  val succ_pos : n -> positive
-
   val add : n -> n -> n
+
+  val sub : n -> n -> n
 
   val mul : n -> n -> n
 
-  val coq_lor : n -> n -> n
+  val compare : n -> n -> comparison
 
-  val ldiff : n -> n -> n
+  val eqb : n -> n -> bool
+
+  val ltb : n -> n -> bool
+
+  val min : n -> n -> n
+
+  val max : n -> n -> n
 
   val to_nat : n -> nat
 
@@ -104,35 +109,7 @@ module N :
 
 module Z :
  sig
-  val double : z -> z
-
-  val succ_double : z -> z
-
-  val pred_double : z -> z
-
-  val pos_sub : positive -> positive -> z
-
-  val add : z -> z -> z
-
   val opp : z -> z
-
-  val sub : z -> z -> z
-
-  val mul : z -> z -> z
-
-  val pow_pos : z -> positive -> z
-
-  val pow : z -> z -> z
-
-  val compare : z -> z -> comparison
-
-  val leb : z -> z -> bool
-
-  val ltb : z -> z -> bool
-
-  val geb : z -> z -> bool
-
-  val gtb : z -> z -> bool
 
   val eqb : z -> z -> bool
 
@@ -143,107 +120,225 @@ module Z :
   val of_nat : nat -> z
 
   val of_N : n -> z
-
-  val pos_div_eucl : positive -> z -> z * z
-
-  val div_eucl : z -> z -> z * z
-
-  val div : z -> z -> z
-
-  val modulo : z -> z -> z
-
-  val div2 : z -> z
-
-  val shiftl : z -> z -> z
-
-  val shiftr : z -> z -> z
-
-  val coq_land : z -> z -> z
  end
 
-val wrap32 : z -> z
+val kMagicSize : n
 
-val tABLE : z list
+val kInputBuffer : n
 
-val iNV_TABLE : z list
+val gz_kMinOutput : n
 
-val enc_val0 : z
+val bz_kMinOutput : n
 
-val enc_valb0 : z
+val compressed_buffer : n
 
-val enc_shift : z
+val kSizeMax : n
 
-val enc_valb_add : z
+val gzc_initial : n
 
-val enc_loop_bound : z
+val gzc_increment : n
 
-val enc_mask : z
+val dirty_initial : bool
 
-val enc_valb_sub : z
+val bz_read_stall_check : bool
 
-val enc_tail_bound : z
+val gz_magic : z list
 
-val enc_tail_shl : z
+val bz_magic : z list
 
-val enc_tail_add : z
+val xz_magic : z list
 
-val enc_tail_mask : z
+val bZ_FINISH : z
 
-val enc_pad_mod : z
+val bZ_RUN : z
 
-val pad_char : z
+val bZ_STREAM_END : z
 
-val dec_val0 : z
+val lZMA_FINISH : z
 
-val dec_valb0 : z
+val lZMA_RUN : z
 
-val dec_pad_char : z
+val lZMA_STREAM_END : z
 
-val dec_reject : z
+val z_FINISH : z
 
-val dec_shift : z
+val z_NO_FLUSH : z
 
-val dec_valb_add : z
+val z_OK : z
 
-val dec_out_bound : z
+val gz_read_continue : z list
 
-val dec_mask : z
+val gz_read_end : z list
 
-val dec_valb_sub : z
+val gz_finish_done : z list
 
-val tbl : z -> z
+val gz_finish_again : z list
 
-val inv : z -> z
+val bz_fine : z list
 
-val sel : z -> z -> z -> z
+val bz_finish_done : z list
 
-val enc_drain : nat -> z -> z -> (z list * z) option
+val bz_finish_again : z list
 
-val drain_fuel : nat
+val xz_fine : z list
 
-val enc_bytes : z list -> z -> z -> ((z list * z) * z) option
+val len : 'a1 list -> n
 
-val enc_pad : nat -> z list
+val takeN : n -> 'a1 list -> 'a1 list
 
-val base64_encode : z list -> z list option
+val dropN : n -> 'a1 list -> 'a1 list
 
-type dres =
-| DOk of z list
-| DBadChar of z
-| DLengthError
+val is_nil : 'a1 list -> bool
 
-val count_padding_rev : z list -> nat
+type kind =
+| KGz
+| KBz
+| KXz
 
-val count_padding : z list -> nat
+val mem : z -> z list -> bool
 
-val dec_loop : z list -> z -> z -> dres
+val starts_with : z list -> z list -> bool
 
-val base64_decode : z list -> dres
+val detect_magic : z list -> kind option
 
-val b64_alphabet : z list
+type frags = z list list
 
-val alpha : z -> z
+val partial_read : frags -> n -> z list * frags
 
-val rfc4648 : z list -> z list
+val read_or_eof_loop : nat -> frags -> n -> z list * frags
 
-val strip_padding : z list -> z list
+val read_or_eof : frags -> n -> z list * frags
+
+type 's cres = { c_st : 's; c_used : n; c_out : z list; c_rc : z }
+
+type pstep =
+| PContinue
+| PEnd
+| PThrow
+
+val process_read : kind -> z -> bool -> bool -> pstep
+
+val read_action : kind -> bool -> z
+
+type rerr =
+| EGz
+| EBz
+| EXz
+| ECompressed
+| EHang
+
+val err_of : kind -> rerr
+
+type 'dstate reader =
+| RComplete
+| RPlain
+| RHeader of z list
+| RStream of kind * 'dstate * z list * bool
+
+type ('world, 'dstate) rstate = { r_file : frags; r_world : 'world;
+                                  r_rd : 'dstate reader }
+
+type ('world, 'dstate) rres =
+| ROk of z list * ('world, 'dstate) rstate
+| RErr of rerr
+
+val read_factory :
+  ('a1 -> kind -> 'a2 * 'a1) -> frags -> 'a1 -> z list -> bool -> (('a2
+  reader * frags) * 'a1) option
+
+val rd :
+  ('a1 -> kind -> 'a2 * 'a1) -> (kind -> 'a2 -> z -> z list -> n -> 'a2 cres)
+  -> nat -> ('a1, 'a2) rstate -> n -> ('a1, 'a2) rres
+
+val rc_open :
+  ('a1 -> kind -> 'a2 * 'a1) -> frags -> 'a1 -> ('a1, 'a2) rstate option
+
+type allres =
+| AOk of z list * n list
+| AErr of rerr * z list * n list
+
+val read_all :
+  ('a1 -> kind -> 'a2 * 'a1) -> (kind -> 'a2 -> z -> z list -> n -> 'a2 cres)
+  -> nat -> nat -> ('a1, 'a2) rstate -> (nat -> n) -> nat -> allres
+
+val read_file :
+  ('a1 -> kind -> 'a2 * 'a1) -> (kind -> 'a2 -> z -> z list -> n -> 'a2 cres)
+  -> nat -> nat -> frags -> 'a1 -> (nat -> n) -> allres
+
+val min_output : kind -> n
+
+val buf_size : kind -> n
+
+val run_flag : kind -> z
+
+val finish_flag : kind -> z
+
+val run_ok : kind -> z -> bool
+
+type fstep =
+| FDone
+| FAgain
+| FThrow
+
+val finish_step : kind -> z -> fstep
+
+type wop =
+| OpWrite of z list
+| OpFlush
+
+val op_data : wop -> z list
+
+type 'estate wstate = { w_file : z list; w_buf : z list; w_est : 'estate;
+                        w_dirty : bool }
+
+type 'estate wres =
+| WOk of 'estate wstate
+| WErr of bool
+
+val avail_out : kind -> 'a1 wstate -> n
+
+val ensure_output : kind -> 'a1 wstate -> 'a1 wstate
+
+val write_loop :
+  (kind -> 'a1 -> z -> z list -> n -> 'a1 cres) -> nat -> kind -> 'a1 wstate
+  -> z list -> 'a1 wres
+
+val ws_write :
+  (kind -> 'a1 -> z -> z list -> n -> 'a1 cres) -> nat -> kind -> 'a1 wstate
+  -> z list -> 'a1 wres
+
+val flush_loop :
+  (kind -> 'a1 -> z -> z list -> n -> 'a1 cres) -> nat -> kind -> 'a1 wstate
+  -> 'a1 wres
+
+val ws_flush :
+  (kind -> 'a1 -> 'a1) -> (kind -> 'a1 -> z -> z list -> n -> 'a1 cres) ->
+  nat -> kind -> 'a1 wstate -> 'a1 wres
+
+val run_ops :
+  (kind -> 'a1 -> 'a1) -> (kind -> 'a1 -> z -> z list -> n -> 'a1 cres) ->
+  nat -> kind -> 'a1 wstate -> wop list -> 'a1 wres
+
+type fileres =
+| FileOk of z list
+| FileErr of bool
+
+val write_session :
+  ('a1 -> kind -> 'a2 * 'a1) -> (kind -> 'a2 -> 'a2) -> (kind -> 'a2 -> z ->
+  z list -> n -> 'a2 cres) -> nat -> kind -> 'a1 -> wop list -> fileres
+
+val gzc_ensure : z list -> n -> n
+
+val gzc_pre :
+  (kind -> 'a1 -> z -> z list -> n -> 'a1 cres) -> nat -> 'a1 -> z list -> z
+  list -> n -> ((('a1 * z list) * z list) * n) option option
+
+val gzc_finish :
+  (kind -> 'a1 -> z -> z list -> n -> 'a1 cres) -> nat -> 'a1 -> z list -> z
+  list -> n -> fileres
+
+val gz_compress :
+  ('a1 -> kind -> 'a2 * 'a1) -> (kind -> 'a2 -> z -> z list -> n -> 'a2 cres)
+  -> nat -> 'a1 -> z list -> fileres
+
+val write_plain : wop list -> z list
